@@ -177,6 +177,10 @@ def run(model, tier="quick"):
                   "status refresh visits every market (second refresh: every market with has_update)", ["set_market_status"])
     res.floor("set_market_status_implementations", idem_rule(model, res), 6)
     res.floor("pending_amount_stores", who_writes_pending(model, res), 4)
+    from .base_refs import write_gate
+    write_gate(res, model)
+    from ..rules.alias import loop_sharing_rule
+    res.units["objects_built_before_a_loop_and_passed_inside"] = loop_sharing_rule(model, res, scope=() if res.prop == "C19" else ("demeter/core/", "demeter/broker/"))
     from ..rules.fresh import fresh_rule
     if "R-FRESH" not in res.rules:
         res.rules.append("R-FRESH")
